@@ -51,10 +51,8 @@ def c01(tier, seed, wd, replay):
         configs.append(ST.cfg("links-2x3-e2", NL=3, MaxEnds=2, Kinds={"D", "T"}))
     nontrivial = set()
     for name, consts in configs:
-        recs, _ = ST.run_config(run, "C01", name, consts, wd, caching=False)
-        for r in recs:
-            if r["pre"] != r["post"] or r["res"]["err"]:
-                nontrivial.add(r["cls"])
+        nt, _ = ST.run_config(run, "C01", name, consts, wd, caching=False)
+        nontrivial |= nt
     if tier == "thorough":
         name, consts = configs[0]
         ST.run_config(run, "C01", name, consts, wd, caching=True)
@@ -81,10 +79,8 @@ def _generic(prop, tier, seed, wd, replay, rule, quick_cfgs, thorough_cfgs, mand
     nontrivial = set()
     cfgs = quick_cfgs if tier == "quick" else thorough_cfgs
     for name, consts in cfgs:
-        recs, _ = ST.run_config(run, prop, name, consts, wd, caching=False)
-        for r in recs:
-            if r["pre"] != r["post"] or r["res"]["err"]:
-                nontrivial.add(r["cls"])
+        nt, _ = ST.run_config(run, prop, name, consts, wd, caching=False)
+        nontrivial |= nt
     if tier == "thorough":
         if cached_first:
             name, consts = cfgs[0]
@@ -170,10 +166,8 @@ def c19(tier, seed, wd, replay):
     run.rule = rule
     nontrivial = set()
     for name, consts in (quick if tier == "quick" else thorough):
-        recs, _ = ST.run_config(run, "C19", name, consts, wd, caching=False)
-        for r in recs:
-            if r["pre"] != r["post"] or r["res"]["err"]:
-                nontrivial.add(r["cls"])
+        nt, _ = ST.run_config(run, "C19", name, consts, wd, caching=False)
+        nontrivial |= nt
     lawattrs(run, wd, tier)
     run.exhaustive = True
     run.assumptions = ASSUME_COMMON
